@@ -457,6 +457,72 @@ func checkCipherSuiteParser(c *Ctx, r *Report, parser *ssa.Function) {
 			nColl++
 		}
 	}
+	// "exactly one entry per (integrity, confidentiality) combination": a class without algorithms
+	// counts as the one algorithm None, whatever the other class holds — the two defaults are
+	// independent. A None appended only when *both* lists are empty makes a record with one
+	// empty class expand to nothing.
+	{
+		algName := func(v ssa.Value) string {
+			if v == nil {
+				return ""
+			}
+			if sl, ok := v.Type().Underlying().(*types.Slice); ok {
+				if n, ok := sl.Elem().(*types.Named); ok {
+					return n.Obj().Name()
+				}
+			}
+			return ""
+		}
+		// lenTestOf: the block ends in `if len(xs) == 0` (either operand order); returns xs's element type name
+		lenTestOf := func(b *ssa.BasicBlock) string {
+			if b == nil || len(b.Instrs) == 0 {
+				return ""
+			}
+			ifi, ok := b.Instrs[len(b.Instrs)-1].(*ssa.If)
+			if !ok {
+				return ""
+			}
+			op, x, y, _, isBin := condOf(ifi.Cond)
+			if !isBin || (op != token.EQL && op != token.NEQ && op != token.GTR && op != token.LEQ && op != token.LSS) {
+				return ""
+			}
+			if a, isLen := lenOf(x); isLen {
+				return algName(a)
+			}
+			if a, isLen := lenOf(y); isLen {
+				return algName(a)
+			}
+			return ""
+		}
+		isAlg := func(n string) bool { return n == "IntegrityAlgorithm" || n == "ConfidentialityAlgorithm" }
+		nDef, coupled := 0, ""
+		allInstrs(parser, false, func(in ssa.Instruction) {
+			call, ok := in.(*ssa.Call)
+			if !ok {
+				return
+			}
+			bi, ok := call.Call.Value.(*ssa.Builtin)
+			if !ok || bi.Name() != "append" || !(appendsConst(call) || appendsConstIn(parser, call)) {
+				return
+			}
+			t := algName(call)
+			if !isAlg(t) {
+				return
+			}
+			nDef++
+			for g, depth := call.Block().Idom(), 0; g != nil && depth < 3; g, depth = g.Idom(), depth+1 {
+				if gt := lenTestOf(g); isAlg(gt) && gt != t {
+					coupled = "the default for an empty " + t + " list is appended under a test of the " + gt + " list's length"
+				}
+				if innermostLoop(loops, g) != innermostLoop(loops, call.Block()) {
+					break
+				}
+			}
+		})
+		if nDef > 0 {
+			r.Check(coupled == "", name+"|defaults independent", parser.Pos(), fmt.Sprintf("%d None defaults, each under a test of its own list only", nDef), coupled+": a record with algorithms of one class only expands to no entry at all")
+		}
+	}
 	r.Check(nColl == 2, name+"|collection loops", parser.Pos(), "one scanning loop per algorithm class", fmt.Sprintf("expected two algorithm-collecting loops, found %d", nColl))
 
 	r.Rule("parser-progress", "each iteration of the record loop drops at least three bytes from the remaining input, so the parser terminates", 1)
